@@ -276,6 +276,37 @@ def registry():
             return b
         R["pp.metric." + fn] = mk()
 
+    # ---- the trajectory holder used by ape / rpe (not underscore-private): its methods get the caller's tensors
+    def stamped(g, n=6):
+        from pypose.metric.ape_rpe import StampedSE3
+        t, p = traj(g, n)
+        return StampedSE3, t, p
+    for meth in ["__init__", "align", "align_sim3", "reduce_to_ids", "translation", "rotation", "getitem", "accumulated_distances", "first_pose"]:
+        def mk(meth=meth):
+            def b(g, v):
+                S, t, p = stamped(g)
+
+                def call(t_, p_, tr):
+                    obj = S(t_, p_)
+                    if meth == "align":
+                        return obj.align(tr)
+                    if meth == "align_sim3":
+                        return obj.align(_lie(g, "Sim3"))
+                    if meth == "reduce_to_ids":
+                        return obj.reduce_to_ids(torch.tensor([0, 2, 3]))
+                    if meth == "getitem":
+                        return obj[[0, 1, 4]]
+                    if meth == "accumulated_distances":
+                        return obj.accumulated_distances
+                    if meth == "first_pose":
+                        return obj.first_pose
+                    if meth == "__init__":
+                        return obj
+                    return getattr(obj, meth)()
+                return call, (t, p, _lie(g, "SE3")), {}
+            return b
+        R["StampedSE3." + meth] = mk()
+
     # ---- optim pieces (forward calls)
     for kn in ["Huber", "PseudoHuber", "Cauchy", "SoftLOne", "Arctan", "Tolerant", "Scale"]:
         R["pp.optim.kernel." + kn] = (lambda kn=kn: lambda g, v: (getattr(P.optim.kernel, kn)(), (_rn(g, 5).abs(),), {}))()
